@@ -1,0 +1,15 @@
+//go:build verif
+// +build verif
+
+package redis
+
+// Re-exports for the verification harness (/verif). Compiled only with -tags verif.
+
+// VerifCrc16 is crc16.
+func VerifCrc16(b []byte) uint16 { return crc16(b) }
+
+// VerifHashtag is hashtag.
+func VerifHashtag(b []byte) []byte { return hashtag(b) }
+
+// VerifSlotNum is slotNum.
+const VerifSlotNum = slotNum
